@@ -12,11 +12,20 @@ RULE = ("each definition of a seeded stream is generated in separate processes u
         "declaration orders (symbols, update entries, sensors, readings, noise entries) x set/list containers; sha256 of header and source, "
         "the Python arglist and reading order are compared across all runs, and the skeleton read from the generated text is compared with "
         "the Lean skeleton; distinct by (definition, hash seed, permutation, container); non-trivial = permutation differs from the first run "
-        "or hash seed differs")
+        "or hash seed differs"
+        "; fixed stream noise-orders: one hand-written definition with three controls declared out of name order is generated under all six "
+        "declaration orders of its process-noise entries (sensor-noise entries rotated along, set/list alternating, two hash seeds): header and "
+        "source sha256 and the Python layout must all be equal, and the Python process-noise matrix must be the declared values on the diagonal "
+        "in control-name order (by-hand oracle)"
+        "; fixed stream config-history: one definition under one configuration (None, and a dict naming one option) is generated as the only "
+        "generation of a fresh process and, in another process, before and after generations of another definition configured by dicts naming "
+        "other options (EKF and plain-model entry points): all generations of the same (definition, configuration) must be byte-identical")
 NOTE = ["every run's definition, exactly as declared in that run, goes through the Lean model of the emitted artifact (emitted_decl_order) and is "
         "compared with the compiled Python filter's argument order, noise diagonals, sensor ids and reading slots",
         "theorem skeleton_perm covers what FormaK decides (orders); byte-identity of the expressions inside the bodies depends on sympy's "
-        "printers and cse/simplify being hash-seed independent, which is observed per run, not proven"]
+        "printers and cse/simplify being hash-seed independent, which is observed per run, not proven",
+        "the two fixed streams (noise-orders, config-history) draw nothing from the random stream: their definitions, noise orders and "
+        "configurations are written out in c15_worker.py; counters fixed:noise_orders_compared / fixed:config_generations_compared"]
 PARTIAL = ["hash-seed independence of sympy internals is observed on the sampled seeds only"]
 
 
@@ -33,6 +42,93 @@ def worker(args):
     return json.loads(line[-1][len("C15RESULT "):])
 
 
+def fixed_worker(args):
+    mode, hashseed = args
+    env = dict(os.environ, PYTHONHASHSEED=str(hashseed), PYTHONPATH=f"{core.REPO}/py:{core.VERIF}/harness", PYTHONDONTWRITEBYTECODE="1")
+    r = subprocess.run(["/venv/bin/python", "-B", os.path.join(core.VERIF, "harness", "c15_worker.py"), "fixed", mode],
+                       capture_output=True, text=True, env=env, timeout=900)
+    line = [l for l in r.stdout.splitlines() if l.startswith("C15RESULT ")]
+    if r.returncode != 0 or not line:
+        return {"error": (r.stderr or r.stdout)[-800:], "hashseed": hashseed, "mode": mode}
+    return json.loads(line[-1][len("C15RESULT "):])
+
+
+FIXED_JOBS = [("noise-orders", 0), ("noise-orders", 7), ("history", 0), ("history", 7),
+              ("alone-default", 0), ("alone-partial", 0), ("alone-default-model", 0)]
+
+
+def fixed_streams_start():
+    """the sub-processes of the fixed streams run next to those of the seeded stream; they are looked at after it"""
+    ex = ThreadPoolExecutor(max_workers=len(FIXED_JOBS))
+    return ex, [ex.submit(fixed_worker, j) for j in FIXED_JOBS]
+
+
+def fixed_streams(ctx, started=None):
+    """two streams with inputs written out in c15_worker.py (nothing drawn from a random stream)"""
+    jobs = FIXED_JOBS
+    ex, futs = started if started is not None else fixed_streams_start()
+    results = dict(zip(jobs, [f.result() for f in futs]))
+    ex.shutdown()
+    for job, res in results.items():
+        if "error" in res:
+            ctx.fail("generation-raises", "code generation failed in a sub-process: " + res["error"][-300:], {"fixed_stream": job[0], "hashseed": job[1]})
+    # --- noise-orders: every declaration order of the noise entries, same bytes and same Python layout
+    ref = None
+    for job in [j for j in jobs if j[0] == "noise-orders"]:
+        res = results[job]
+        if "error" in res:
+            continue
+        names = res["controls_by_name"]
+        want_M = [[float(res["declared_process_noise"][a]) if a == b else 0.0 for b in names] for a in names]
+        for one in res["runs"]:
+            case = {"fixed_stream": "noise-orders", "hashseed": job[1], "noise_order": one["noise_order"],
+                    "sensor_noise_order": one["sensor_noise_order"], "container": one["container"]}
+            ctx.case(case, nontrivial=ref is not None)
+            ctx.count("fixed:noise_orders_compared"); ctx.count(f"container={one['container']}"); ctx.traces += 1
+            if one["noise_order"] != names:
+                ctx.count("fixed:noise_declared_out_of_name_order")
+            if one["py_arglist"][-len(names):] != names or one["py_process_noise"] != want_M:
+                ctx.fail("nondeterministic:py_process_noise_layout", "the Python filter's process-noise matrix is not the declared values on the "
+                         f"diagonal in control-name order: controls {one['py_arglist'][-len(names):]}, matrix {one['py_process_noise']}, wanted {want_M}", case)
+            if ref is None:
+                ref = (job, one)
+                continue
+            rjob, r1 = ref
+            rdesc = {"hashseed": rjob[1], "noise_order": r1["noise_order"], "container": r1["container"]}
+            for field, what in (("sha", None), ("py_arglist", "Python variable layout"), ("py_readings", "Python reading layout")):
+                if one[field] == r1[field]:
+                    continue
+                if field == "sha":
+                    field, what = ("header_sha", "C++ header") if one["sha"][0] != r1["sha"][0] else ("source_sha", "C++ source")
+                ctx.fail(f"nondeterministic:{field}:noise-declaration-order", f"{what} differs between two generations of the same definition "
+                         f"(process noise declared {r1['noise_order']} vs {one['noise_order']}, hash seed {rjob[1]} vs {job[1]}, "
+                         f"container {r1['container']} vs {one['container']})", dict(case, reference=rdesc))
+                break
+    # --- config-history: same definition, same configuration, whatever the process generated before
+    alone = {"default": results[("alone-default", 0)].get("default"), "partial": results[("alone-partial", 0)].get("partial"),
+             "default_model": results[("alone-default-model", 0)].get("default_model")}
+    told = {"default": "config=None", "partial": "config={'max_dt_sec': 0.05}", "default_model": "config=None (plain model entry point)"}
+    for job in [j for j in jobs if j[0] == "history"]:
+        res = results[job]
+        if "error" in res:
+            continue
+        for key in ("default_first", "default_model_first", "default_after_dict", "default_model_after_dict", "partial_first",
+                    "partial_after_dict", "default_after_two_dicts"):
+            cfg = "default_model" if key.startswith("default_model") else key.split("_")[0]
+            point = key[len(cfg) + 1:]
+            case = {"fixed_stream": "config-history", "hashseed": job[1], "configuration": told[cfg], "generated": point}
+            ctx.case(case, nontrivial=True)
+            ctx.count("fixed:config_generations_compared"); ctx.traces += 1
+            if alone[cfg] is None:
+                continue
+            if res[key] != alone[cfg]:
+                which = "C++ header" if res[key][0] != alone[cfg][0] else "C++ source"
+                ctx.fail(f"nondeterministic:{'header_sha' if which == 'C++ header' else 'source_sha'}:config-history",
+                         f"{which} of one definition under one configuration ({told[cfg]}) differs between the only generation of a fresh "
+                         f"process (hash seed 0) and a generation made '{point.replace('_', ' ')}' in a process (hash seed {job[1]}) that "
+                         "also generated another definition with dict configurations naming other options", case)
+
+
 def run(ctx):
     audit = core.lean_audit("C15")
     ndefs, seeds, perms = (3, [0, 1, 7], [1, 2]) if ctx.quick else (20, [0, 1, 2, 3, 11, 123, 4242, 99999], [1, 2, 3, 4, 5, 6])
@@ -43,6 +139,7 @@ def run(ctx):
                 jobs.append((ctx.seed, k, p, "set" if (hs + p) % 2 == 0 else "list", hs))
         # one more generation of the same definition in a process for which time passes 5000 times faster
         jobs.append((ctx.seed, k, perms[0], "set" if (seeds[0] + perms[0]) % 2 == 0 else "list", seeds[0], 5000))
+    fixed_started = fixed_streams_start()
     with ThreadPoolExecutor(max_workers=14) as ex:
         results = list(ex.map(worker, jobs))
     drv = core.Driver()
@@ -116,6 +213,7 @@ def run(ctx):
         if impl != model or not res["py_process_noise_offdiag_zero"]:
             ctx.broke("correspondence:emitted (argument order, noise diagonals, sensor ids, reading slots: Python filter vs Lean emitted artifact)",
                       {"model": model, "impl": impl}, case)
+    fixed_streams(ctx, fixed_started)
     return core.finish(ctx, audit, NOTE, RULE, PARTIAL)
 
 
